@@ -101,6 +101,50 @@ def e2e_replay(idc):
     return [(ns[i], e) for i, e in bad]
 
 
+def adjacency_probe(res):
+    """Supporting, NOT solver-decided (J02c): every unary operator directly under every binary / unary operator (where two operator
+    tokens become neighbours: `a - -b`, `a + +b`, `- -a`, `typeof typeof a`, `a-- -b` look-alikes) is compiled and the emitted module is
+    loaded by node in sloppy and in strict mode; a SyntaxError is a replayed violation on a concrete template."""
+    from jssym import model as M, driver
+    a, b = ('id', 'a'), ('id', 'b')
+    exprs = []
+    for u in M.UN_OPS:
+        for o in M.BIN_OPS:
+            exprs.append(('bin', o, a, ('un', u, b)))
+            exprs.append(('bin', o, ('un', u, a), b))
+        for u2 in M.UN_OPS:
+            exprs.append(('un', u, ('un', u2, a)))
+        exprs.append(('un', u, M.L('int', '1', 1)))
+        exprs.append(('bin', '-', a, ('un', u, M.L('int', '1', 1))))
+        exprs.append(('cond', ('un', u, a), ('un', u, b), ('un', u, a)))
+    texts = []
+    for e in exprs:
+        try:
+            texts.append(M.pr(e))
+            texts.append(M.pr(e, full=True))
+        except Exception:
+            continue
+    texts = sorted(set(texts))
+    progs = ['<view p="{{ %s }}">{{ %s }}</view>' % (t.replace('<', '&lt;').replace('"', '&quot;'), t.replace('<', '&lt;')) for t in texts]
+    comp = driver.compile_batch(progs, want=('gen_object', 'runtime'))
+    nbad = 0
+    import subprocess, os
+    ok_items = [(t, pg, c) for t, pg, c in zip(texts, progs, comp) if 'panic' not in c and 'gen_object' in c]
+    r = subprocess.run(['node', os.path.join(common.VERIF, 'replay', 'js', 'syntax.js')], input=json.dumps([{'runtime': c['runtime'], 'gen_object': c['gen_object']} for _, _, c in ok_items]),
+                       stdout=subprocess.PIPE, stderr=subprocess.PIPE, text=True, timeout=300)
+    if r.returncode != 0:
+        res.inconc('adjacency probe: node failed: ' + r.stderr[-200:])
+        return
+    for (t, pg, c), err in zip(ok_items, json.loads(r.stdout)):
+        if err and 'SyntaxError' in err:
+            nbad += 1
+            if nbad == 1:
+                res.violation({'engine': 'replay', 'harness': 'J02c-adjacency', 'class': 'syntax'},
+                              'the code generated for {{ %s }} does not parse (%s)' % (t, err[:200]), {'template': pg})
+    res.coverage['operator_adjacency_probe'] = {'templates': len(progs), 'syntax_errors': nbad, 'note': 'concrete runs; supporting only'}
+    res.coverage['traces_validated_against_impl'] = res.coverage.get('traces_validated_against_impl', 0) + len(progs)
+
+
 def main(tier):
     res = Result('C02', 'other')
     res.engines = ['M (MIR symbolic execution + z3 Int encoding)']
@@ -121,6 +165,7 @@ def main(tier):
     # string literals: the writer of every string of the generated code emits a well-formed literal for every string (shared with C12)
     from checks import c12
     totals['queries'] += c12.run_m12a(res, mod, tier)
+    adjacency_probe(res)
     res.bounds = {'id': '[0, 2^24)  (public identifiers start at 26; > 16M declarations, property names >= 200k)',
                   'loop_unwinding': 8, 'unwinding_assertion': True}
     res.assumptions = ['String::new / String::push modelled as a char sequence (contract table)',
@@ -307,6 +352,12 @@ def check_producer(mod, res, tier, producer, is_public, totals):
 
 def replay(path):
     d = json.load(open(path))
+    if 'template' in d['replay']:
+        from jssym import driver
+        c = driver.compile_batch([d['replay']['template']], want=('gen_object', 'runtime'))[0]
+        out = driver.node_eval(c['gen_object'], '"use strict";' + c['runtime'], [{'mode': 'tree', 'ref': 'null', 'envs': []}])
+        print(out.get('load_error', 'loads'))
+        return 1 if 'load_error' in out else 0
     if 'elements' in d['replay']:
         bad = e2e_replay(d['replay']['id'])
         print(bad[:3])
